@@ -15,6 +15,18 @@ so): the model stays tied to the code by the correspondence run alone."""
 import os, re, sys
 ROOT = sys.argv[1] if len(sys.argv) > 1 else '/repo/src'
 OUT = os.environ.get('VERIF_COUNTER_OUT') or os.path.join(os.path.dirname(os.path.dirname(os.path.abspath(__file__))), 'lean', 'Unimock', 'Generated', 'Counter.lean')
+import os as _os
+_TMP = f'.{_os.getpid()}.tmp'
+def _finalise(tmp, out):
+    """replace `out` atomically, and only when the content changed"""
+    import os
+    new = open(tmp).read()
+    old = open(out).read() if os.path.exists(out) else None
+    if new != old:
+        os.replace(tmp, out)
+    else:
+        os.remove(tmp)
+
 
 class Unrecognised(Exception):
     pass
@@ -258,8 +270,9 @@ def main():
     for k, v in flags.items():
         out.append(f"def recognised_{k} : Bool := {'true' if v else 'false'}")
     out += ["", "end Unimock.Generated", ""]
-    with open(OUT, 'w') as fh:
+    with open(OUT + _TMP, 'w') as fh:
         fh.write('\n'.join(out))
+    _finalise(OUT + _TMP, OUT)
     print("translated counter/fn_mocker functions: " + ', '.join(f"{k}={'ok' if v else 'UNRECOGNISED'}" for k, v in flags.items()) + ('; ' + '; '.join(notes) if notes else ''))
 
 if __name__ == '__main__':
